@@ -77,6 +77,8 @@ Next == lvl < Depth /\ lvl' = lvl + 1 /\ p' \in Extend(p)
 Funcs == (NFf :> BehId) @@ (NG :> BehConst(VNat(7))) @@ (NH :> BehFail)
 VarCtxs == {HashMapCtx(EmptyMap, Funcs, FALSE), HashMapCtx((NX :> VNat(1)), Funcs, FALSE),
             HashMapCtx((NX :> VStr(<<115>>)), Funcs, FALSE)}
+           \* a Float variable: x = 2 fails with ExpectedFloat INSIDE the evaluation - not to be confused with a projection error
+           \cup (IF Family \in {"entry", "entrydeep"} THEN {HashMapCtx((NX :> VFloat(<<16376, 0, 0, 0>>)), Funcs, FALSE)} ELSE {})
 ImmCtxs == {HashMapCtx((NX :> VNat(1)), Funcs, FALSE), HashMapCtx((NX :> VBool(TRUE)), Funcs, TRUE),
             HashMapCtx(EmptyMap, Funcs, FALSE), ReadOnlyCtx(HashMapCtx((NX :> VNat(1)), Funcs, FALSE)),
             EmptyCtx, EmptyBuiltinCtx,
